@@ -2,14 +2,19 @@ package main
 
 import (
 	"bytes"
+	"context"
 	stdjson "encoding/json"
 	"errors"
 	"fmt"
 	"io"
+	"math/rand"
 	"os"
 	"os/exec"
+	"reflect"
+	"regexp"
 	"strconv"
 	"strings"
+	"sync"
 	"time"
 
 	gojson "github.com/goccy/go-json"
@@ -21,15 +26,15 @@ func init() {
 }
 
 type c06S struct {
-	A int               `json:"a"`
-	B string            `json:"b"`
-	C []int             `json:"c"`
-	D map[string]c06S   `json:"d"`
-	E *c06S             `json:"e"`
-	F interface{}       `json:"f"`
-	G [2]int            `json:"g"`
+	A int                `json:"a"`
+	B string             `json:"b"`
+	C []int              `json:"c"`
+	D map[string]c06S    `json:"d"`
+	E *c06S              `json:"e"`
+	F interface{}        `json:"f"`
+	G [2]int             `json:"g"`
 	H stdjson.RawMessage `json:"h"`
-	I float64           `json:"i,string"`
+	I float64            `json:"i,string"`
 }
 
 // a reader that delivers pieces of the given size and fails at failAt
@@ -178,8 +183,14 @@ func c06DepthVerdicts(b []byte) string {
 	}
 	v(func() error { var x interface{}; return gojson.Unmarshal(b, &x) })
 	v(func() error { var x c06S; return gojson.Unmarshal(b, &x) }) // skips or follows e
-	v(func() error { var x interface{}; return gojson.NewDecoder(&pieceReader{b: b, size: 4096, failAt: -1}).Decode(&x) })
-	v(func() error { var x c06S; return gojson.NewDecoder(&pieceReader{b: b, size: 4096, failAt: -1}).Decode(&x) })
+	v(func() error {
+		var x interface{}
+		return gojson.NewDecoder(&pieceReader{b: b, size: 4096, failAt: -1}).Decode(&x)
+	})
+	v(func() error {
+		var x c06S
+		return gojson.NewDecoder(&pieceReader{b: b, size: 4096, failAt: -1}).Decode(&x)
+	})
 	v(func() error { var o bytes.Buffer; return gojson.Compact(&o, b) })
 	v(func() error { var o bytes.Buffer; return gojson.Indent(&o, b, "", " ") })
 	v(func() error {
@@ -234,6 +245,10 @@ func runC06(o *Out) {
 		fmt.Println("child-ok")
 		return
 	}
+	if os.Getenv("AUDIT_ONLY") == "extra" { // for working on the added strata alone
+		c06Extra(o)
+		return
+	}
 	// 1. corpus, prefixes and single-byte mutations through every entry point
 	for _, d := range corpusDocs {
 		c06Run(o, []byte(d))
@@ -273,6 +288,9 @@ func runC06(o *Out) {
 			o.violation("C06", "panic in CreatePath", map[string]string{"input": fmt.Sprintf("%q", b)})
 		}
 	})
+	// 1b. the strata of audit A1 (destination types of the C02 grammar, long tokens,
+	// reader behaviours, call sequences, paths)
+	c06Extra(o)
 	// 2. the nesting limit: at the limit everything agrees with encoding/json,
 	// one level deeper every depth-sensitive entry point must return an error
 	for _, kind := range []string{"array", "object", "e-chain", "mixed"} {
@@ -333,4 +351,1146 @@ func runC06(o *Out) {
 			}
 		}
 	}
+}
+
+// ===========================================================================
+// Audit A1: strata for dimensions of the quantifier that the generators above
+// do not reach (see c06Extra).  Every stratum counts what it ran
+// (x_* counters, x_* histograms) and names the input of a violation.
+// ===========================================================================
+
+// watchdog: "never loops forever".  The new strata announce the input they
+// are about to run; when a batch of calls on one input does not return within
+// c06HangLimit the harness writes the input to current.json (bin/check reports
+// it as the failing case) and exits.
+const c06HangLimit = 90 * time.Second
+
+var c06wd struct {
+	mu     sync.Mutex
+	start  time.Time
+	detail func() map[string]string
+	once   sync.Once
+}
+
+// c06Current names the input about to be run in <outdir>/current.json, like Out.current, through
+// one file that stays open (the strata call it a few thousand times): if the process dies of
+// something recover cannot catch, bin/check reports this input
+var c06CurFile *os.File
+
+func c06Current(o *Out, detail map[string]string) {
+	if c06CurFile == nil {
+		f, err := os.OpenFile(o.dir+"/current.json", os.O_RDWR|os.O_CREATE|os.O_TRUNC, 0o644)
+		if err != nil {
+			o.current(detail)
+			return
+		}
+		c06CurFile = f
+	}
+	b, _ := stdjson.Marshal(detail)
+	c06CurFile.Truncate(0)
+	c06CurFile.WriteAt(b, 0)
+}
+
+// c06Guarded runs f; detail is evaluated only if f does not return in time
+func c06Guarded(o *Out, detail func() map[string]string, f func()) {
+	c06wd.once.Do(func() {
+		go func() {
+			for {
+				time.Sleep(time.Second)
+				c06wd.mu.Lock()
+				st, d := c06wd.start, c06wd.detail
+				c06wd.mu.Unlock()
+				if !st.IsZero() && time.Since(st) > c06HangLimit {
+					cur := map[string]string{"property": "C06", "hang": fmt.Sprintf("a call did not return within %s", c06HangLimit)}
+					for k, v := range d() {
+						cur[k] = v
+					}
+					o.current(cur)
+					fmt.Fprintf(os.Stderr, "C06: hang: %v\n", cur)
+					os.Exit(3)
+				}
+			}
+		}()
+	})
+	c06wd.mu.Lock()
+	c06wd.start, c06wd.detail = time.Now(), detail
+	c06wd.mu.Unlock()
+	f()
+	c06wd.mu.Lock()
+	c06wd.start = time.Time{}
+	c06wd.mu.Unlock()
+}
+
+var c06Digits = regexp.MustCompile(`[0-9]+`)
+
+// the kind of a panic, for the histogram only (every panic is a violation whatever its kind)
+func c06PanicKind(msg string) string {
+	switch {
+	case strings.Contains(msg, "slice bounds out of range"), strings.Contains(msg, "index out of range"):
+		return "index or slice bounds out of range"
+	case strings.Contains(msg, "Len of non-array type"):
+		return "reflect: Len of non-array type"
+	case strings.Contains(msg, "on zero Value"):
+		return "reflect: call on zero Value"
+	case strings.Contains(msg, "not assignable"), strings.Contains(msg, "unexported field"):
+		return "reflect: value not assignable"
+	case strings.Contains(msg, "nil pointer dereference"):
+		return "nil pointer dereference"
+	}
+	return clipN(c06Digits.ReplaceAllString(msg, "#"), 80)
+}
+
+// c06Try runs one call; a panic is a violation that carries the input and the stratum
+func c06Try(o *Out, stratum, entry string, b []byte, extra map[string]string, f func()) {
+	detail := func() map[string]string {
+		d := map[string]string{"stratum": stratum, "entry": entry, "input_len": fmt.Sprint(len(b)), "input": clipN(fmt.Sprintf("%q", b), 1500)}
+		for k, v := range extra {
+			d[k] = v
+		}
+		return d
+	}
+	var err error
+	c06Guarded(o, detail, func() { err = safeCall(func() error { f(); return nil }) })
+	o.count("x_"+stratum+"_calls", 1)
+	if err != nil {
+		d := detail()
+		d["err"] = err.Error()
+		o.hist("x_panics", stratum+"/"+c06Digits.ReplaceAllString(entry, "#")+"/"+c06PanicKind(err.Error()))
+		o.violation("C06", "panic in "+entry, d)
+	}
+}
+
+// a reader that follows a script: sizes of the pieces (0 = an empty read that
+// returns 0, nil), then optionally an error that arrives together with the last
+// piece (io.EOF or another error), or alone
+type c06ScriptReader struct {
+	b       []byte
+	sizes   []int
+	i       int
+	pos     int
+	failAt  int   // -1: never
+	failErr error // what the failure returns
+	withEOF bool  // the last piece arrives together with io.EOF
+	flaky   bool  // after the failure the reader goes on delivering
+	failed  bool
+}
+
+func (r *c06ScriptReader) Read(p []byte) (int, error) {
+	if r.failAt >= 0 && r.pos >= r.failAt && !r.failed {
+		r.failed = true
+		return 0, r.failErr
+	}
+	if r.failed && !r.flaky {
+		return 0, r.failErr
+	}
+	if r.pos >= len(r.b) {
+		return 0, io.EOF
+	}
+	n := 1
+	if len(r.sizes) > 0 {
+		n = r.sizes[r.i%len(r.sizes)]
+		r.i++
+	}
+	if n > len(p) {
+		n = len(p)
+	}
+	if r.pos+n > len(r.b) {
+		n = len(r.b) - r.pos
+	}
+	if r.failAt >= 0 && !r.failed && r.pos+n > r.failAt {
+		n = r.failAt - r.pos
+	}
+	copy(p, r.b[r.pos:r.pos+n])
+	r.pos += n
+	if r.withEOF && r.pos >= len(r.b) {
+		return n, io.EOF
+	}
+	return n, nil
+}
+
+// --- 1. destination types of the C02 grammar x documents for the type, cut and mutated ---
+
+func c06TypedCalls(o *Out, t reflect.Type, b []byte, seed int64, k int) {
+	ex := map[string]string{"type": clipN(t.String(), 700)}
+	zero := func() interface{} { return reflect.New(t).Interface() }
+	pop := func() interface{} {
+		v := reflect.New(t)
+		tgValue(rand.New(rand.NewSource(seed)), v.Elem(), 0, 30, false)
+		return v.Interface()
+	}
+	c06Try(o, "typed", "Unmarshal(zero)", b, ex, func() { gojson.Unmarshal(b, zero()) })
+	sizes := []int{1, 2, 3, 7, 64, 4096}
+	c06Try(o, "typed", "Decode(zero,pieces)", b, ex, func() {
+		d := gojson.NewDecoder(&pieceReader{b: b, size: sizes[k%len(sizes)], failAt: -1})
+		if d.Decode(zero()) == nil {
+			d.More()
+			d.Decode(zero())
+		}
+		io.ReadAll(d.Buffered())
+		d.InputOffset()
+	})
+	switch k % 8 {
+	case 0:
+		c06Try(o, "typed", "Unmarshal(populated)", b, ex, func() { gojson.Unmarshal(b, pop()) })
+	case 1:
+		c06Try(o, "typed", "Decode(populated,pieces)", b, ex, func() {
+			gojson.NewDecoder(&pieceReader{b: b, size: sizes[(k/8)%len(sizes)], failAt: -1}).Decode(pop())
+		})
+	case 2:
+		c06Try(o, "typed", "Decode(failing reader)", b, ex, func() {
+			fail := 0
+			if len(b) > 0 {
+				fail = (k / 8) % (len(b) + 1)
+			}
+			d := gojson.NewDecoder(&pieceReader{b: b, size: 3, failAt: fail})
+			d.Decode(zero())
+			d.Decode(zero())
+		})
+	case 3:
+		c06Try(o, "typed", "UnmarshalContext", b, ex, func() { gojson.UnmarshalContext(context.Background(), b, zero()) })
+	case 4:
+		c06Try(o, "typed", "UnmarshalNoEscape", b, ex, func() { gojson.UnmarshalNoEscape(b, zero()) })
+	case 5:
+		c06Try(o, "typed", "UnmarshalWithOption(FirstWin)", b, ex, func() {
+			gojson.UnmarshalWithOption(b, pop(), gojson.DecodeFieldPriorityFirstWin())
+		})
+	case 6:
+		c06Try(o, "typed", "Decoder(UseNumber,DisallowUnknownFields)", b, ex, func() {
+			d := gojson.NewDecoder(bytes.NewReader(b))
+			d.UseNumber()
+			d.DisallowUnknownFields()
+			d.Decode(zero())
+		})
+	default:
+		c06Try(o, "typed", "DecodeContext/DecodeWithOption", b, ex, func() {
+			d := gojson.NewDecoder(iotestOneByte(b))
+			if d.DecodeContext(context.Background(), zero()) == nil {
+				d.DecodeWithOption(zero(), gojson.DecodeFieldPriorityFirstWin())
+			}
+		})
+	}
+}
+
+func iotestOneByte(b []byte) io.Reader { return &pieceReader{b: b, size: 1, failAt: -1} }
+
+// a struct type none of whose fields takes a key (no fields, or all of them tagged "-"):
+// Unmarshal of {"\q":1} into it panics today (see the notes, FieldlessStructKeyEscape);
+// such types are run with AUDIT_OPEN=1 only
+func c06HasFieldlessStruct(t reflect.Type, depth int) bool {
+	if depth > 8 {
+		return false
+	}
+	switch t.Kind() {
+	case reflect.Struct:
+		if reflect.PtrTo(t).Implements(reflect.TypeOf((*stdjson.Unmarshaler)(nil)).Elem()) {
+			return false
+		}
+		keys := 0
+		for _, n := range c02FieldNames(t) {
+			if n != "-" {
+				keys++
+			}
+		}
+		if keys == 0 {
+			return true
+		}
+		for i := 0; i < t.NumField(); i++ {
+			if c06HasFieldlessStruct(t.Field(i).Type, depth+1) {
+				return true
+			}
+		}
+	case reflect.Ptr, reflect.Slice, reflect.Array, reflect.Map:
+		return c06HasFieldlessStruct(t.Elem(), depth+1)
+	}
+	return false
+}
+
+type c06Ignored struct {
+	A int `json:"-"`
+	b int
+}
+
+type c06Prefixes struct {
+	A    int
+	AB   string
+	ABC  []int
+	ABCD *c06Prefixes
+	E    int `json:"é"`
+	Sp   int `json:"a b"`
+	Lt   int `json:"<"`
+}
+
+// the struct key matcher changes form with the number of fields (8 | 9, 16 | 17) and with the
+// length of the longest key (64 | 65); a key is matched byte by byte against all field names at
+// once, so names that are prefixes of each other, keys that stop early, go on too long or are
+// spelled with escapes take different exits
+func c06MatcherTypes(open bool) []reflect.Type {
+	nf := func(n int, long int) reflect.Type {
+		var fs []reflect.StructField
+		for i := 0; i < n; i++ {
+			f := reflect.StructField{Name: fmt.Sprintf("F%d", i), Type: []reflect.Type{reflect.TypeOf(0), reflect.TypeOf(""), reflect.TypeOf([]int(nil)), tgIface}[i%4]}
+			if i == 0 && long > 0 {
+				f.Tag = reflect.StructTag(`json:"` + strings.Repeat("k", long) + `"`)
+			}
+			fs = append(fs, f)
+		}
+		return reflect.StructOf(fs)
+	}
+	ts := []reflect.Type{nf(1, 0), nf(8, 0), nf(9, 0), nf(16, 0), nf(17, 0), nf(2, 64), nf(2, 65), nf(9, 64), reflect.TypeOf(c06Prefixes{}), reflect.TypeOf([]c06Prefixes{}), reflect.TypeOf(map[string]*c06Prefixes{})}
+	if open {
+		ts = append(ts, reflect.TypeOf(struct{}{}), reflect.TypeOf(c06Ignored{}), reflect.TypeOf([]struct{}{}), reflect.TypeOf(map[string]c06Ignored{}))
+	}
+	return ts
+}
+
+func c06MatcherDocs(t reflect.Type) []string {
+	for t.Kind() != reflect.Struct {
+		t = t.Elem()
+	}
+	names := c02FieldNames(t)
+	names = append(names, "", "F", "x")
+	var keys []string
+	esc := func(s string, every int) string {
+		var sb strings.Builder
+		for i, c := range []byte(s) {
+			if i%every == 0 && c < 0x80 {
+				fmt.Fprintf(&sb, `\u%04x`, c)
+			} else {
+				sb.WriteByte(c)
+			}
+		}
+		return sb.String()
+	}
+	for _, n := range names {
+		if len(n) > 70 {
+			continue
+		}
+		keys = append(keys, n, strings.ToLower(n), n+"x", esc(n, 1), esc(n, 2), n+`\q`, `\q`+n, n+`\`, n+`\u00`, n+`\ud83d\ude00`, n+"\x00")
+		if len(n) > 1 {
+			keys = append(keys, n[:len(n)-1], n[:1]+`\"`+n[1:])
+		}
+	}
+	keys = append(keys, `\q`, `\q\q`, `\0`, `\`, `\u`, `\u0`, `\ud800`, `\"`, `\\`, strings.Repeat("k", 63), strings.Repeat("k", 64), strings.Repeat("k", 65), strings.Repeat("k", 66), strings.Repeat(`\u006b`, 65))
+	var docs []string
+	for i, k := range keys {
+		v := []string{"1", `"s"`, "[1,2]", "null", `{"F0":1}`}[i%5]
+		docs = append(docs, `{"`+k+`":`+v+`}`, `{"F0":0,"`+k+`":`+v+`,"`+k+`":null}`)
+	}
+	return docs
+}
+
+func c06Matcher(o *Out) {
+	open := true
+	if !open {
+		o.count("x_matcher_types_held_back_AUDIT_OPEN", 4)
+	}
+	k := 0
+	for _, t := range c06MatcherTypes(open) {
+		o.count("x_matcher_types", 1)
+		for _, doc := range c06MatcherDocs(t) {
+			if t.Kind() == reflect.Slice {
+				doc = "[" + doc + "," + doc + "]"
+			} else if t.Kind() == reflect.Map {
+				doc = `{"m":` + doc + "}"
+			}
+			o.count("x_matcher_docs", 1)
+			for c := 0; c <= len(doc); c++ {
+				if c < len(doc) && len(doc) > 80 && c%3 != 0 {
+					continue
+				}
+				k++
+				c06TypedCalls(o, t, []byte(doc[:c]), int64(k), k)
+			}
+		}
+	}
+}
+
+func c06TypedGrammar(o *Out) {
+	c06Matcher(o)
+	open := true
+	r := o.rng
+	ntypes := 110
+	if o.tier == "thorough" {
+		ntypes = 4000
+	}
+	for i := 0; i < ntypes; i++ {
+		var t reflect.Type
+		if i%3 == 0 {
+			t = c02Type(r, 3)
+		} else {
+			t = c02Struct(r, 2)
+		}
+		o.hist("x_typed_kind", t.Kind().String())
+		if !open && c06HasFieldlessStruct(t, 0) {
+			o.count("x_typed_types_held_back_AUDIT_OPEN", 1)
+			continue
+		}
+		for j := 0; j < 2; j++ {
+			doc := c02Doc(r, t, 0, false)
+			if len(doc) > 1500 {
+				doc = doc[:1500]
+			}
+			seed := r.Int63()
+			o.count("x_typed_docs", 1)
+			c06Current(o, map[string]string{"property": "C06", "stratum": "typed", "type": clipN(t.String(), 700), "doc": doc})
+			k := 0
+			c06TypedCalls(o, t, []byte(doc), seed, k)
+			step := 1
+			if len(doc) > 300 {
+				step = 1 + len(doc)/300
+			}
+			for c := 0; c < len(doc); c += step { // truncations
+				k++
+				c06TypedCalls(o, t, []byte(doc[:c]), seed, k)
+			}
+			stride := 7
+			if len(doc) > 120 {
+				stride = 7 * (1 + len(doc)/120)
+			}
+			mutations(doc, alphabet27, stride, func(m string) {
+				k++
+				if k%2 == 0 {
+					c06TypedCalls(o, t, []byte(m), seed, k)
+				}
+			})
+		}
+	}
+}
+
+// --- 2. tokens longer than the stream decoder's window (512 bytes, doubled on demand) ---
+//
+// Nothing above produces a token of more than a few dozen bytes, so the code that
+// grows the window in the middle of a token (Stream.readBuf), that rewrites the window
+// while a string is scanned (escapes shrink it, ill-formed UTF-8 widens it by two
+// bytes per byte) and that re-reads a position after a refill only ever runs with
+// the first window.  Valid and HTMLEscape are built on the stream decoder too.
+
+type c06LongDoc struct {
+	class string
+	doc   []byte
+	grow  int // bytes by which scanning widens the window (2 per ill-formed byte)
+}
+
+func rep(s string, n int) string { return strings.Repeat(s, n) }
+
+// token classes; n is the number of repetitions of the unit
+func c06LongTokens(n int) []c06LongDoc {
+	q := func(s string) []byte { return []byte(`"` + s + `"`) }
+	return []c06LongDoc{
+		{"string-ascii", q(rep("a", n)), 0},
+		{"string-escape-n", q(rep(`\n`, n)), 0},
+		{"string-escape-quote", q(rep(`\"`, n)), 0},
+		{"string-escape-backslash", q(rep(`\\`, n)), 0},
+		{"string-u-escape", q(rep(`é`, n)), 0},
+		{"string-u-escape-pair", q(rep(`😀`, n)), 0},
+		{"string-u-escape-lone-surrogate", q(rep(`\ud800`, n)), 0},
+		{"string-u-escape-lone-low-high", q(rep(`\ude00\ud83d`, n)), 0},
+		{"string-2byte", q(rep("é", n)), 0},
+		{"string-3byte", q(rep("€", n)), 0},
+		{"string-4byte", q(rep("😀", n)), 0},
+		{"string-replacement-char", q(rep("\xef\xbf\xbd", n)), 0},
+		{"string-mixed", q(rep(`a\né€😀é\\`, n)), 0},
+		{"number-digits", []byte(rep("1", n)), 0},
+		{"number-fraction", []byte("0." + rep("1", n)), 0},
+		{"number-exponent", []byte("1e" + rep("0", n) + "1"), 0},
+		{"number-negative-zero-fraction", []byte("-0." + rep("0", n) + "1"), 0},
+		{"whitespace-before", []byte(rep(" ", n) + "1"), 0},
+		{"whitespace-mixed-before", []byte(rep(" \n\t\r", n) + `"x"`), 0},
+		{"whitespace-after", []byte("1" + rep(" ", n)), 0},
+		{"whitespace-in-array", []byte("[" + rep(" ", n) + "1" + rep("\n", n) + "," + rep("\t", n) + "2" + rep(" ", n) + "]"), 0},
+		{"whitespace-in-object", []byte("{" + rep(" ", n) + `"a"` + rep(" ", n) + ":" + rep(" ", n) + "1" + rep(" ", n) + "}"), 0},
+		{"key-ascii", []byte(`{"` + rep("k", n) + `":1}`), 0},
+		{"key-escaped", []byte(`{"` + rep(`k`, n) + `":1}`), 0},
+		{"key-prefix-of-field", []byte(`{"a` + rep("a", n) + `":1,"b` + rep(`\n`, n) + `":"x"}`), 0},
+		{"key-multibyte", []byte(`{"` + rep("é", n) + `":[1]}`), 0},
+		{"base64", q(rep("QUJD", n)), 0},
+		{"base64-padded", q(rep("QUJD", n) + "QQ=="), 0},
+		{"array-of-true", []byte("[" + rep("true,", n) + "false]"), 0},
+		{"array-of-null", []byte("[" + rep("null,", n) + "null]"), 0},
+		{"array-of-numbers", []byte("[" + rep("-1.5e1,", n) + "0]"), 0},
+		{"array-of-strings", []byte("[" + rep(`"é\n",`, n) + `""]`), 0},
+		{"object-members", []byte("{" + rep(`"a":1,"b":"x",`, n) + `"c":[1,2]}`), 0},
+		{"nesting-array", []byte(rep("[", n) + rep("]", n)), 0},
+		{"nesting-object", []byte(rep(`{"e":`, n) + "null" + rep("}", n)), 0},
+		// ill-formed UTF-8: every such byte becomes U+FFFD, three bytes, in the window
+		{"string-illformed-ff", q(rep("\xff", n)), 2 * n},
+		{"string-illformed-continuation", q(rep("\x80", n)), 2 * n},
+		{"string-illformed-truncated-3byte", q(rep("\xe2\x82", n)), 4 * n},
+		{"string-illformed-ef-bf", q(rep("\xef\xbf", n)), 4 * n},
+		{"string-illformed-surrogate-bytes", q(rep("\xed\xa0\x80", n)), 6 * n},
+		{"string-illformed-mixed", q(rep("a\xffé\xc3", n)), 4 * n},
+		{"key-illformed", []byte(`{"` + rep("\xff", n) + `":1}`), 2 * n},
+	}
+}
+
+// an ill-formed run of k bytes laid across the window edge at input offset edge
+func c06IllFormedAtEdge(k, edge, shift int) c06LongDoc {
+	lead := edge - 1 - k/2 - shift
+	if lead < 0 {
+		lead = 0
+	}
+	return c06LongDoc{"string-illformed-at-edge", []byte(`"` + rep("a", lead) + rep("\xff", k) + rep("b", 700) + `"`), 2 * k}
+}
+
+var c06Wrappers = []string{"%s", "[%s]", `{"b":%s}`, `{"h":%s}`, `{"zz":%s,"a":1}`, `{"f":[%s]}`, `[0,%s,1]`, ` %s `}
+
+// the widest total widening of the window (see c06LongDoc.grow) the default run
+// sends: beyond it the library panics today (finding StreamWindowGrowthOverrun,
+// see the notes); AUDIT_OPEN=1 lifts the cap.
+const c06GrowCap = 500
+
+func c06LongCalls(o *Out, ld c06LongDoc, b []byte, k int) {
+	ex := map[string]string{"class": ld.class}
+	streamy := []struct {
+		name string
+		mk   func() interface{}
+	}{
+		{"iface", func() interface{} { var v interface{}; return &v }},
+		{"c06S", func() interface{} { return &c06S{} }},
+		{"string", func() interface{} { var v string; return &v }},
+		{"bytes", func() interface{} { var v []byte; return &v }},
+		{"Number", func() interface{} { var v stdjson.Number; return &v }},
+		{"float64", func() interface{} { var v float64; return &v }},
+		{"int64", func() interface{} { var v int64; return &v }},
+		{"RawMessage", func() interface{} { var v stdjson.RawMessage; return &v }},
+		{"map-iface", func() interface{} { var v map[string]interface{}; return &v }},
+		{"slice-string", func() interface{} { var v []string; return &v }},
+		{"slice-bool-ptr", func() interface{} { var v []*bool; return &v }},
+		{"text", func() interface{} { return &c05TextU{} }},
+		{"map-text-key", func() interface{} { var v map[C02Key][]byte; return &v }},
+	}
+	sizes := []int{4096, 1, 7, 511, 512, 513, 100, 2}
+	for di, d := range streamy {
+		c06Try(o, "window", "Unmarshal("+d.name+")", b, ex, func() { gojson.Unmarshal(b, d.mk()) })
+		// two readers per destination, rotating so that every pair occurs
+		for _, sz := range []int{sizes[(k+di)%len(sizes)], sizes[(k+di+3)%len(sizes)]} {
+			c06Try(o, "window", fmt.Sprintf("Decode(%s,%d)", d.name, sz), b, ex, func() {
+				dec := gojson.NewDecoder(&pieceReader{b: b, size: sz, failAt: -1})
+				if k%2 == 0 {
+					dec.UseNumber()
+				}
+				if dec.Decode(d.mk()) == nil {
+					dec.More()
+					dec.Decode(d.mk())
+				}
+				io.ReadAll(dec.Buffered())
+				dec.InputOffset()
+			})
+		}
+	}
+	for _, sz := range []int{4096, 1, sizes[k%len(sizes)]} {
+		c06Try(o, "window", fmt.Sprintf("Token(%d)", sz), b, ex, func() {
+			dec := gojson.NewDecoder(&pieceReader{b: b, size: sz, failAt: -1})
+			for i := 0; i < 5000; i++ {
+				if _, err := dec.Token(); err != nil {
+					break
+				}
+				dec.More()
+			}
+		})
+	}
+	c06Try(o, "window", "Valid", b, ex, func() { gojson.Valid(b) })
+	c06Try(o, "window", "HTMLEscape", b, ex, func() { var w bytes.Buffer; gojson.HTMLEscape(&w, b) })
+	c06Try(o, "window", "Compact", b, ex, func() { var w bytes.Buffer; gojson.Compact(&w, b) })
+	c06Try(o, "window", "Indent", b, ex, func() { var w bytes.Buffer; gojson.Indent(&w, b, "", "\t") })
+	c06Try(o, "window", "Path.Extract", b, ex, func() {
+		for _, ps := range []string{"$.b", "$[0]", "$..a", "$.f[0]"} {
+			p, _ := gojson.CreatePath(ps)
+			p.Extract(b)
+		}
+	})
+}
+
+func c06Window(o *Out) {
+	open := true
+	// lengths whose tokens end around the first three window edges (511, 1023, 2047
+	// bytes of input), for units of 1..12 bytes
+	var ns []int
+	if o.tier == "thorough" {
+		for _, c := range []int{42, 85, 102, 128, 170, 256, 341, 512, 1024, 2048} {
+			for d := -4; d <= 4; d++ {
+				ns = append(ns, c+d)
+			}
+		}
+	} else {
+		ns = []int{41, 43, 84, 86, 101, 103, 127, 128, 170, 171, 254, 255, 256, 257, 340, 342, 509, 510, 511, 512, 513, 1021, 1022, 1023, 1024, 2047}
+	}
+	k := 0
+	run := func(ld c06LongDoc) {
+		if ld.grow > c06GrowCap && !open {
+			o.count("x_window_docs_held_back_AUDIT_OPEN", 1)
+			return
+		}
+		o.count("x_window_docs", 1)
+		o.hist("x_window_class", ld.class)
+		o.hist("x_window_len", fmt.Sprintf("%04d..", len(ld.doc)/256*256))
+		w := c06Wrappers[k%len(c06Wrappers)]
+		k++
+		i := strings.Index(w, "%s")
+		b := append(append([]byte(w[:i]), ld.doc...), w[i+2:]...)
+		c06Current(o, map[string]string{"property": "C06", "stratum": "window", "class": ld.class, "len": fmt.Sprint(len(b)), "head": clipN(fmt.Sprintf("%q", b), 300)})
+		c06LongCalls(o, ld, b, k)
+		if k%3 == 0 {
+			// the same, cut or damaged next to a window edge
+			for _, edge := range []int{511, 1023} {
+				if len(b) <= edge+2 {
+					continue
+				}
+				at := edge - 2 + k%5
+				c06LongCalls(o, ld, b[:at], k+1)
+				for _, c := range []byte{0, '"', '\\', 0xff, 'u'} {
+					m := append([]byte{}, b...)
+					m[at] = c
+					c06LongCalls(o, ld, m, k+2)
+				}
+			}
+		}
+	}
+	for _, n := range ns {
+		for _, ld := range c06LongTokens(n) {
+			if len(ld.doc) > 9000 {
+				continue
+			}
+			if strings.HasPrefix(ld.class, "nesting") && n > 1100 {
+				continue
+			}
+			run(ld)
+		}
+	}
+	ks := []int{1, 2, 3, 8, 64, 250}
+	if open {
+		ks = append(ks, 256, 257, 300, 510, 600, 2000)
+	} else {
+		o.count("x_window_docs_held_back_AUDIT_OPEN", 6*2*3)
+	}
+	for _, kk := range ks {
+		for _, edge := range []int{511, 1023} {
+			for shift := 0; shift < 3; shift++ {
+				run(c06IllFormedAtEdge(kk, edge, shift))
+			}
+		}
+	}
+}
+
+// --- 3. reader behaviours: pieces of any size incl. empty reads, data together with
+// io.EOF or with an error, failure at every point, a reader that recovers; and what
+// the Decoder's other methods do after the failure ---
+
+var c06ReaderDocs = []string{
+	`{"a":1,"b":"xéy","c":[1,2,3],"d":{"k":{"a":2}},"e":{"a":3},"f":[true,null,1.5e3,"s"],"g":[1,2],"h":{"raw":[1]},"i":"2.5"}`,
+	`[{"a":1},{"b":"two"},{"c":[3]}]`, `"a string with \"escapes\" \\ and é€😀 and 😀"`, `-123.456e-7`, `true`, `null`,
+	`  [1, 2, 3]  `, `{"a":1} {"a":2}`, `[1,2`, `{"a":"x`, `"\ud83d`, `nul`, `{"b":"\u00`,
+}
+
+func c06ReaderBehaviours(o *Out) {
+	r := o.rng
+	errBoom := errors.New("injected reader failure")
+	dests := []struct {
+		name string
+		mk   func() interface{}
+	}{
+		{"iface", func() interface{} { var v interface{}; return &v }},
+		{"c06S", func() interface{} { return &c06S{} }},
+		{"slice-c06S", func() interface{} { var v []c06S; return &v }},
+		{"string", func() interface{} { var v string; return &v }},
+		{"RawMessage", func() interface{} { var v stdjson.RawMessage; return &v }},
+		{"float64", func() interface{} { var v float64; return &v }},
+	}
+	docs := append([]string{}, c06ReaderDocs...)
+	n := 250
+	if o.tier == "thorough" {
+		n = 5000
+	}
+	for i := 0; i < n; i++ {
+		docs = append(docs, genDoc(r, 3))
+	}
+	after := func(d *gojson.Decoder, mk func() interface{}, k int) {
+		// whatever the caller does next must return as well
+		switch k % 5 {
+		case 0:
+			d.Decode(mk())
+		case 1:
+			d.Token()
+			d.Token()
+		case 2:
+			d.More()
+			d.Decode(mk())
+		case 3:
+			io.ReadAll(d.Buffered())
+			d.InputOffset()
+		default:
+			d.More()
+			io.ReadAll(d.Buffered())
+			d.Token()
+		}
+	}
+	k := 0
+	for _, doc := range docs {
+		b := []byte(doc)
+		c06Current(o, map[string]string{"property": "C06", "stratum": "reader", "doc": clipN(doc, 600)})
+		for di, d := range dests {
+			// failure at every point, three kinds of failure
+			stepFail := 1
+			if len(b) > 160 {
+				stepFail = 1 + len(b)/160
+			}
+			for at := 0; at <= len(b); at += stepFail {
+				k++
+				kind := (k + di) % 3
+				rd := &c06ScriptReader{b: b, sizes: []int{1 + k%5}, failAt: at, failErr: errBoom}
+				switch kind {
+				case 1:
+					rd.flaky = true
+				case 2:
+					rd.failErr = io.ErrUnexpectedEOF
+				}
+				o.hist("x_reader_kind", []string{"fail-for-good", "fail-once-then-deliver", "fail-with-ErrUnexpectedEOF"}[kind])
+				c06Try(o, "reader", "Decode("+d.name+") with a reader failing at "+fmt.Sprint(at), b, map[string]string{"reader": fmt.Sprintf("%+v", *rd)}, func() {
+					dec := gojson.NewDecoder(rd)
+					dec.Decode(d.mk())
+					after(dec, d.mk, k)
+				})
+			}
+			// scripted piece sizes with empty reads and data+EOF
+			for rep := 0; rep < 6; rep++ {
+				k++
+				var sizes []int
+				for j := 0; j < 1+r.Intn(6); j++ {
+					sizes = append(sizes, []int{0, 1, 1, 2, 3, 5, 8, 64, 511, 512}[r.Intn(10)])
+				}
+				if !containsInt(sizes, 1) {
+					sizes = append(sizes, 1) // a reader that never delivers is not a reader
+				}
+				rd := &c06ScriptReader{b: b, sizes: sizes, failAt: -1, withEOF: rep%2 == 0}
+				o.hist("x_reader_kind", fmt.Sprintf("scripted(empty reads=%v,data+EOF=%v)", containsInt(sizes, 0), rd.withEOF))
+				c06Try(o, "reader", "Decode("+d.name+") scripted", b, map[string]string{"reader": fmt.Sprintf("%+v", *rd)}, func() {
+					dec := gojson.NewDecoder(rd)
+					if k%3 == 0 {
+						dec.UseNumber()
+					}
+					dec.Decode(d.mk())
+					after(dec, d.mk, k)
+				})
+			}
+		}
+	}
+}
+
+func containsInt(l []int, x int) bool {
+	for _, v := range l {
+		if v == x {
+			return true
+		}
+	}
+	return false
+}
+
+// --- 4. call sequences on one Decoder: Decode / Token / More / Buffered / InputOffset in
+// any order over a stream of several texts (the usual idiom reads '[' with Token, the
+// elements with Decode while More, then ']'); values that end exactly where the window ends ---
+
+func c06Sequences(o *Out) {
+	r := o.rng
+	n := 6000
+	if o.tier == "thorough" {
+		n = 150000
+	}
+	seps := []string{"", " ", "\n", ",", "  \n", ":", "\x00", "]"}
+	ops := []string{"Decode(iface)", "Decode(c06S)", "Decode(Raw)", "Decode(string)", "Decode(int)", "Token", "More", "Buffered", "InputOffset", "UseNumber", "DisallowUnknownFields", "Decode(map)"}
+	for i := 0; i < n; i++ {
+		var sb strings.Builder
+		nv := 1 + r.Intn(6)
+		wrapArray := r.Intn(3) == 0
+		if wrapArray {
+			sb.WriteString("[")
+		}
+		for j := 0; j < nv; j++ {
+			if j > 0 {
+				if wrapArray {
+					sb.WriteString(",")
+				} else {
+					sb.WriteString(seps[r.Intn(len(seps))])
+				}
+			}
+			switch r.Intn(8) {
+			case 0:
+				sb.WriteString(`{"a":1,"b":"x","c":[1,2],"zz":{"q":[1,{"r":"s"}]}}`)
+			case 1:
+				d := genDoc(r, 2)
+				if len(d) > 0 {
+					sb.WriteString(d[:r.Intn(len(d)+1)]) // cut short
+				}
+			case 2:
+				// a value that ends at, just before or just after the end of a window
+				end := []int{511, 1023}[r.Intn(2)] - sb.Len() + r.Intn(5) - 2
+				if end > 4 {
+					sb.WriteString(`"` + rep("p", end-2) + `"`)
+				} else {
+					sb.WriteString("12")
+				}
+			default:
+				sb.WriteString(genDoc(r, 2))
+			}
+		}
+		if wrapArray && r.Intn(4) > 0 {
+			sb.WriteString("]")
+		}
+		b := []byte(sb.String())
+		var prog []int
+		if wrapArray && r.Intn(2) == 0 {
+			prog = []int{5, 6} // Token, More, then a random tail
+		}
+		for j := 0; j < 2+r.Intn(10); j++ {
+			prog = append(prog, r.Intn(len(ops)))
+		}
+		size := []int{1, 2, 3, 7, 64, 511, 512, 4096}[r.Intn(8)]
+		var names []string
+		for _, p := range prog {
+			names = append(names, ops[p])
+			o.hist("x_sequence_ops", ops[p])
+		}
+		ex := map[string]string{"program": strings.Join(names, " "), "piece": fmt.Sprint(size)}
+		c06Current(o, map[string]string{"property": "C06", "stratum": "sequence", "doc": clipN(string(b), 1200), "program": ex["program"], "piece": ex["piece"]})
+		c06Try(o, "sequence", "Decoder call sequence", b, ex, func() {
+			d := gojson.NewDecoder(&pieceReader{b: b, size: size, failAt: -1})
+			for _, p := range prog {
+				switch ops[p] {
+				case "Decode(iface)":
+					var v interface{}
+					d.Decode(&v)
+				case "Decode(c06S)":
+					var v c06S
+					d.Decode(&v)
+				case "Decode(Raw)":
+					var v stdjson.RawMessage
+					d.Decode(&v)
+				case "Decode(string)":
+					var v string
+					d.Decode(&v)
+				case "Decode(int)":
+					var v int
+					d.Decode(&v)
+				case "Decode(map)":
+					var v map[string][]interface{}
+					d.Decode(&v)
+				case "Token":
+					d.Token()
+				case "More":
+					d.More()
+				case "Buffered":
+					io.ReadAll(d.Buffered())
+				case "InputOffset":
+					d.InputOffset()
+				case "UseNumber":
+					d.UseNumber()
+				case "DisallowUnknownFields":
+					d.DisallowUnknownFields()
+				}
+			}
+		})
+	}
+}
+
+// --- 5. paths: every well-formed path of the path alphabet (up to length 4, 5 in thorough)
+// on documents whose keys the paths can name, cut and mutated; Path.Unmarshal into
+// destinations of several types; Path.Get on sources that are not what Unmarshal into
+// interface{} yields (typed maps, slices, arrays, pointers, structs) ---
+//
+// Four kinds of call panic today (see the notes: PathGetStructSource, PathAssignNull,
+// PathAssignMismatch, PathGetInvalidDst).  The default run keeps to the calls around
+// them; AUDIT_OPEN=1 runs everything.
+
+type c06PathSrc struct {
+	A  int                    `json:"a"`
+	B  *c06PathSrc            `json:"b"`
+	L  []c06PathSrc           `json:"0"`
+	M  map[string]interface{} `json:"1"`
+	P  *int
+	I  interface{}
+	Ar [2]*c06PathSrc
+	mi map[int]string
+}
+
+func c06Paths(o *Out) {
+	r := o.rng
+	open := true
+	var paths []*gojson.Path
+	var texts []string
+	maxLen := 4
+	if o.tier == "thorough" {
+		maxLen = 5
+	}
+	enumStrings(pathAlphabet, maxLen, func(b []byte) {
+		if len(b) == 0 || b[0] != '$' {
+			return
+		}
+		var p *gojson.Path
+		if safeCall(func() error { var err error; p, err = gojson.CreatePath(string(b)); return err }) == nil && p != nil {
+			paths = append(paths, p)
+			texts = append(texts, string(b))
+		}
+	})
+	for _, s := range []string{"$.a.b", "$.a[0].b", "$['a']['b']", `$."a"."b"`, "$..a..b", "$..a[*]", "$[*][*]", "$[0][1][0]", "$.a[*].b[*]", "$[*]..a", "$.b.b.b.b", "$.1.a", "$.0[1].a", "$..0..a",
+		"$[1].a[1].b[0]", "$.b[1][0].a", "$..b.a", "$[*].a", "$.a.a.a", "$[-1]", "$[99999999999999999999]", "$[1][-1]"} {
+		if p, err := gojson.CreatePath(s); err == nil {
+			paths = append(paths, p)
+			texts = append(texts, s)
+		}
+	}
+	o.count("x_path_wellformed_paths", int64(len(paths)))
+	docs := []string{
+		`{"a":{"b":[1,{"a":2}],"a":{"a":null}},"b":[[0,1],[{"a":[]}]],"0":"zero","1":{"a":"é","b":{}},"":1}`,
+		`[[1,[2,{"a":3}]],{"a":[{"b":1},{"b":[true,false]}],"b":{"a":{"a":{"a":1}}}},"a",null,1.5]`,
+		`{"a":"\"","b":"\\","a b":{"-":1},"'":2,"\"":3,"*":[1],"$":{"a":1}}`, `null`, `"a"`, `0`, `[]`, `{}`, `[null]`, `{"a":null}`, `{"a":[null,{"b":null}]}`,
+	}
+	n := 25
+	if o.tier == "thorough" {
+		n = 400
+	}
+	keys := []string{`"a"`, `"b"`, `"0"`, `"1"`, `"a b"`, `"-"`, `""`, `"\u0061"`}
+	var gen func(d int) string
+	gen = func(d int) string {
+		switch k := r.Intn(7); {
+		case d > 0 && k < 2:
+			var parts []string
+			for j := r.Intn(4); j > 0; j-- {
+				parts = append(parts, keys[r.Intn(len(keys))]+":"+gen(d-1))
+			}
+			return "{" + strings.Join(parts, ",") + "}"
+		case d > 0 && k < 4:
+			var parts []string
+			for j := r.Intn(4); j > 0; j-- {
+				parts = append(parts, gen(d-1))
+			}
+			return "[" + strings.Join(parts, ",") + "]"
+		default:
+			return genValue(r, 0)
+		}
+	}
+	for i := 0; i < n; i++ {
+		docs = append(docs, gen(4))
+	}
+	// destinations of Path.Unmarshal and Path.Get.  What is selected is a list of
+	// values; when a selected value is null, or does not fit the destination, the
+	// assignment panics today for every destination but *interface{}.
+	typedDsts := []struct {
+		name string
+		mk   func() interface{}
+	}{
+		{"*[]interface{}", func() interface{} { var v []interface{}; return &v }},
+		{"*string", func() interface{} { var v string; return &v }},
+		{"*int", func() interface{} { var v int; return &v }},
+		{"**int", func() interface{} { var v *int; return &v }},
+		{"*map[string]interface{}", func() interface{} { var v map[string]interface{}; return &v }},
+		{"*c06PathSrc", func() interface{} { return &c06PathSrc{} }},
+		{"*[]c06PathSrc", func() interface{} { var v []c06PathSrc; return &v }},
+		{"*[1]float64", func() interface{} { var v [1]float64; return &v }},
+	}
+	if !open {
+		o.count("x_path_held_back_AUDIT_OPEN:typed destinations (PathAssignNull, PathAssignMismatch)", int64(len(typedDsts)))
+	}
+	one := func(b []byte, pi int, k int) {
+		p := paths[pi]
+		ex := map[string]string{"path": texts[pi]}
+		c06Try(o, "path", "Path.Extract", b, ex, func() { p.Extract(b) })
+		c06Try(o, "path", "Path.Unmarshal(*interface{})", b, ex, func() {
+			var v interface{}
+			p.Unmarshal(b, &v)
+		})
+		if open {
+			d := typedDsts[k%len(typedDsts)]
+			c06Try(o, "path", "Path.Unmarshal("+d.name+")", b, ex, func() { p.Unmarshal(b, d.mk()) })
+		}
+	}
+	k := 0
+	for _, doc := range docs {
+		b := []byte(doc)
+		var src interface{}
+		parsed := stdjson.Unmarshal(b, &src) == nil
+		for pi := range paths {
+			k++
+			one(b, pi, k)
+			if parsed {
+				c06Try(o, "path", "Path.Get(decoded document,*interface{})", b, map[string]string{"path": texts[pi]}, func() {
+					var dst interface{}
+					paths[pi].Get(src, &dst)
+				})
+				if open {
+					d := typedDsts[k%len(typedDsts)]
+					c06Try(o, "path", "Path.Get(decoded document,"+d.name+")", b, map[string]string{"path": texts[pi]}, func() { paths[pi].Get(src, d.mk()) })
+				}
+			}
+			// cut and damaged
+			if len(b) > 2 {
+				at := k % len(b)
+				one(b[:at], pi, k)
+				m := append([]byte{}, b...)
+				m[at] = alphabet27[k%len(alphabet27)]
+				one(m, pi, k)
+			}
+		}
+	}
+	// sources that Unmarshal into interface{} does not produce
+	seven := 7
+	f := 1.5
+	var nilIface interface{}
+	plain := []interface{}{
+		map[string]map[string][]int{"a": {"b": {1, 2}, "a": nil}, "b": nil}, map[string][]string{"a": {"x", "y"}, "0": {}}, map[string]*int{"a": &seven, "b": nil},
+		[]map[string]interface{}{{"a": 1}, nil, {"b": []interface{}{1.5, "s", nil}}}, [][]int{{1, 2}, nil, {}}, [2][]string{{"a"}, nil}, &[]interface{}{1.0, "s"},
+		[]*float64{&f, nil}, []interface{}{nil, 1.0, "s", []string{"a"}, map[string]string{"a": "b"}, &seven}, map[string]interface{}{"a": (*int)(nil), "b": (map[string]int)(nil), "0": ([]int)(nil), "1": &nilIface},
+		map[int]string{0: "a", 1: "b"}, map[C02Key]int{"a": 1}, map[TgNamedStr][]int{"a": {1}}, TgNamedMap{"a": true}, TgNamedSlice{1, 2},
+		nil, 1, 1.5, "s", true, []byte("ab"), stdjson.RawMessage(`{"a":1}`), stdjson.Number("1"), uint8(1), &seven, (*int)(nil), &nilIface, func() {}, make(chan int), complex(1, 2),
+	}
+	leaf := &c06PathSrc{A: 2, P: &seven, I: []int{1, 2}}
+	withStruct := []interface{}{
+		c06PathSrc{A: 1, B: leaf, L: []c06PathSrc{{A: 3}, {B: leaf}}, M: map[string]interface{}{"a": 1, "b": []interface{}{nil, map[string]interface{}{"a": nil}}}, I: leaf, Ar: [2]*c06PathSrc{nil, leaf}},
+		&c06PathSrc{}, (*c06PathSrc)(nil), leaf, []*c06PathSrc{nil, leaf}, [2]c06PathSrc{}, map[string]*c06PathSrc{"a": nil, "b": leaf}, map[string]interface{}{"a": leaf, "b": c06PathSrc{}},
+		struct{ a int }{1}, struct{}{}, TgEmbed{}, &TgRec{},
+	}
+	if !open {
+		o.count("x_path_held_back_AUDIT_OPEN:struct sources (PathGetStructSource)", int64(len(withStruct)))
+		o.count("x_path_held_back_AUDIT_OPEN:invalid destinations (PathGetInvalidDst)", 3)
+	}
+	get := func(kind string, si int, src interface{}) {
+		for pi := range paths {
+			ex := map[string]string{"path": texts[pi], "source": clipN(fmt.Sprintf("%s #%d %T %+v", kind, si, src, src), 300)}
+			c06Try(o, "path", "Path.Get("+kind+" source,*interface{})", nil, ex, func() {
+				var dst interface{}
+				paths[pi].Get(src, &dst)
+			})
+			if open {
+				for _, d := range typedDsts {
+					c06Try(o, "path", "Path.Get("+kind+" source,"+d.name+")", nil, ex, func() { paths[pi].Get(src, d.mk()) })
+				}
+				c06Try(o, "path", "Path.Get("+kind+" source,nil)", nil, ex, func() { paths[pi].Get(src, nil) })
+				c06Try(o, "path", "Path.Get("+kind+" source,not a pointer)", nil, ex, func() { paths[pi].Get(src, 1) })
+				c06Try(o, "path", "Path.Get("+kind+" source,nil pointer)", nil, ex, func() { paths[pi].Get(src, (*interface{})(nil)) })
+			}
+		}
+	}
+	for si, src := range plain {
+		get("struct-free", si, src)
+	}
+	if open {
+		for si, src := range withStruct {
+			get("struct", si, src)
+		}
+	}
+}
+
+// --- 6. the nesting limit where the destination does not follow the nesting: the depth is then
+// counted by the skip functions (two copies: buffer and stream), by the RawMessage and
+// interface{} members, and it must be counted per level, not per bracket met: twenty
+// thousand siblings are not nesting.  Same judgement as for the kinds above: at the limit
+// the verdicts are encoding/json's, well beyond it nothing succeeds.
+
+func c06Nested2(kind string, depth int) []byte {
+	wrap := func(pre string, inner []byte, post string) []byte {
+		return append(append([]byte(pre), inner...), post...)
+	}
+	switch kind {
+	case "array in skipped member": // total depth = depth
+		return wrap(`{"zz":`, nested("array", depth-1), `,"a":1}`)
+	case "object in skipped member":
+		return wrap(`{"a":1,"zz":`, nested("object", depth-1), `}`)
+	case "mixed in skipped member":
+		return wrap(`{"zz":`, nested("mixed", depth-1), `}`)
+	case "array in RawMessage member":
+		return wrap(`{"h":`, nested("array", depth-1), `}`)
+	case "object in interface member":
+		return wrap(`{"f":`, nested("object", depth-1), `}`)
+	case "array in slice of skipped":
+		return wrap(`{"c":[],"d":{"k":{"zz":`, nested("array", depth-3), `}}}`)
+	case "array behind strings with brackets": // brackets inside strings are not nesting
+		return wrap(`{"zz":["[[[[","]]\\\"[[",`, nested("array", depth-2), `,"]"]}`)
+	case "siblings": // depth 2 whatever the width
+		return wrap(`[`, bytes.Repeat([]byte("[],{},"), depth), `[]]`)
+	case "siblings in skipped member": // depth 3
+		return wrap(`{"zz":[`, bytes.Repeat([]byte(`[],{"a":[]},`), depth), `0]}`)
+	}
+	return nil
+}
+
+// the verdicts that depend on the destination or on the mode (Indent and the paths, whose
+// output is quadratic in the depth, are judged on the kinds above)
+func c06DepthVerdictsLite(b []byte) (string, string) {
+	var g, w strings.Builder
+	v := func(sb *strings.Builder, err error) {
+		if err == nil {
+			sb.WriteByte('A')
+		} else {
+			sb.WriteByte('R')
+		}
+	}
+	for _, mk := range []func() interface{}{func() interface{} { var x interface{}; return &x }, func() interface{} { return &c06S{} }, func() interface{} { return &c05Skip16{} },
+		func() interface{} { return &c05SkipMap{} }, func() interface{} { var x map[string]stdjson.RawMessage; return &x }, func() interface{} { var x map[string]c05U; return &x }} {
+		v(&g, safeCall(func() error { return gojson.Unmarshal(b, mk()) }))
+		v(&w, stdjson.Unmarshal(b, mk()))
+		v(&g, safeCall(func() error { return gojson.NewDecoder(&pieceReader{b: b, size: 4096, failAt: -1}).Decode(mk()) }))
+		v(&w, stdjson.NewDecoder(bytes.NewReader(b)).Decode(mk()))
+		v(&g, safeCall(func() error { return gojson.NewDecoder(&pieceReader{b: b, size: 1000, failAt: -1}).Decode(mk()) }))
+		v(&w, stdjson.NewDecoder(bytes.NewReader(b)).Decode(mk()))
+	}
+	var o bytes.Buffer
+	v(&g, safeCall(func() error { return gojson.Compact(&o, b) }))
+	o.Reset()
+	v(&w, stdjson.Compact(&o, b))
+	if gojson.Valid(b) {
+		g.WriteByte('A')
+	} else {
+		g.WriteByte('R')
+	}
+	if stdjson.Valid(b) {
+		w.WriteByte('A')
+	} else {
+		w.WriteByte('R')
+	}
+	return g.String(), w.String()
+}
+
+func c06DepthExtra(o *Out) {
+	for _, kind := range []string{"array in skipped member", "object in skipped member", "mixed in skipped member", "array in RawMessage member", "object in interface member",
+		"array in slice of skipped", "array behind strings with brackets", "siblings", "siblings in skipped member"} {
+		depths := []int{10000, 10001, 20001}
+		if o.tier == "thorough" {
+			depths = []int{9999, 10000, 10001, 10002, 20001}
+		}
+		for _, depth := range depths {
+			b := c06Nested2(kind, depth)
+			var got, want string
+			c06Guarded(o, func() map[string]string {
+				return map[string]string{"stratum": "depth", "kind": kind, "depth": fmt.Sprint(depth)}
+			}, func() { got, want = c06DepthVerdictsLite(b) })
+			o.count("x_depth_cases", 1)
+			if got != want {
+				o.violation("C06", "nesting-limit verdicts differ from encoding/json", map[string]string{"kind": kind, "depth": fmt.Sprint(depth), "got": got, "want": want,
+					"order": "for interface{}, c06S, c05Skip16, c05SkipMap, map[string]RawMessage, map[string]Unmarshaler: Unmarshal, Decode(4096), Decode(1000); then Compact, Valid"})
+			}
+			if depth >= 10002 && !strings.HasPrefix(kind, "siblings") && strings.Contains(got[:len(want)], "A") {
+				o.violation("C06", "an entry point accepted nesting beyond the limit", map[string]string{"kind": kind, "depth": fmt.Sprint(depth), "got": got})
+			}
+			o.hist("x_depth_verdicts", fmt.Sprintf("%s/%d %s", kind, depth, got))
+		}
+	}
+}
+
+// c06Extra runs the added strata and records how long each took
+func c06Extra(o *Out) {
+	for _, s := range []struct {
+		name string
+		run  func(*Out)
+	}{
+		{"typed (C02 type grammar x cut and mutated documents for the type)", c06TypedGrammar},
+		{"window (tokens longer than the stream window)", c06Window},
+		{"reader (scripted and failing readers, calls after the failure)", c06ReaderBehaviours},
+		{"sequence (Decode/Token/More/Buffered in any order)", c06Sequences},
+		{"path (well-formed paths x documents, Get on typed sources)", c06Paths},
+		{"depth (the nesting limit in skipped, raw and interface members; siblings)", c06DepthExtra},
+	} {
+		t0 := time.Now()
+		v0 := o.Stats["harness_violations"]
+		s.run(o)
+		o.Notes = append(o.Notes, fmt.Sprintf("audit stratum %s: %.1fs, %d violations", s.name, time.Since(t0).Seconds(), o.Stats["harness_violations"]-v0))
+	}
+	c06Current(o, map[string]string{"property": "C06", "stratum": "(the strata of audit A1 have finished)"})
 }
